@@ -11,11 +11,21 @@ CLAIMED = {
         text="Lean 4 theorems (kernel-checked, unbounded): segment index arithmetic is a bijection for every 64-bit index; element "
              "addresses are injective and in bounds for every first-block choice; for every set of concurrent push_back/grow_by/"
              "grow_to_at_least calls and every interleaving of their accesses to the size word the handed-out ranges tile [0,size); "
-             "grow_to_at_least grows iff old<new for all 64-bit sizes (guard regenerated from the source). Tie: constants and the guard "
-             "are regenerated from /repo on every run; model definitions are run against the real headers (E-PURE, E-REAL).",
-        note="Trusted: Lean kernel; propext/Classical.choice/Quot.sound; checks/cexpr.py translator; sampled differential correspondence. "
-             "Not modelled: segment allocation election/waits, table switch, exception paths (monitored on explored runs only).",
-        technique="Lean 4 proof (inductive invariant over all schedules; arithmetic lemmas) + regenerated guard + differential correspondence",
+             "grow_to_at_least grows iff old<new for all 64-bit sizes (guard regenerated from the source). The segment-table protocol at "
+             "atomic-access granularity (embedded -> long table switch, first-block election, segment owners, waiters, failure flag and "
+             "tags), any threads / programs / schedules: each slot is written once, exactly one allocation per segment is published "
+             "(election losers free theirs), the table switch loses no pointer, element addresses never change, are pairwise disjoint and "
+             "in bounds, elements are constructed once and only through an observed real pointer; for any fault plan: no construction "
+             "through null or the failure tag, table-switch waiters are released by the failure flag. Closed witnesses show what the code "
+             "does not guarantee (grow_to_at_least returns before construction / before allocation on its growing path; four failure-path "
+             "deadlocks; a failure tag overwriting a published segment). Tie: 17 constants and guards regenerated from /repo on every run; "
+             "model definitions are run against the real headers (E-PURE, E-REAL); E-SHIM replay of every size-word and segment-table "
+             "access, allocator call and construction on the model under random / DFS / guided / fault schedules, with model-based deadlock "
+             "attribution.",
+        note="Trusted: Lean kernel; propext/Classical.choice/Quot.sound; checks/cexpr.py translator; E-SHIM; harness/c11; sampled "
+             "correspondence. Sequentially consistent interleavings. The deep invariant is for failure-free runs; 7 known findings in the "
+             "failure and grow_to_at_least clauses (all reproduced on the real header and exhibited on the model).",
+        technique="Lean 4 proof (access-granular interleaving model, ~30-conjunct inductive invariant, arithmetic lemmas, decide witnesses) + regenerated guards + E-SHIM replay + fault schedules",
         design="§3 C11, §4 F1"),
 }
 
@@ -82,10 +92,15 @@ CLAIMED["C16"] = dict(
          "exits+1 per thread and observer. Tie: generated constants and 52 filter/decision facts regenerated from the source text, white-box "
          "differential on the real market/serializer/arena/global_control code, exact differential of all take points on a real arena, "
          "E-SHIM access-level replay (slots, serializer, mandatory flags), whole-runtime E-SHIM programs with isolation / budget / bound / "
-         "observer / rest monitors.",
-    note="Trusted: Lean kernel, standard axioms, harness/c16, source extractor checks/c16b.py, E-SHIM, sampled correspondence. Not modelled: "
-         "resume stream, bypassed tasks, critical-task re-spawn, isolation-tag reuse (stack address), transient try_join overshoot. Two known "
-         "findings demonstrated on every run (second external thread in a one-thread arena; emptied proxy keeps the arena non-empty).",
+         "observer / rest monitors. Isolation as a stack discipline per task dispatcher (restore on normal and exceptional exit of nested "
+         "isolate / execute, the isolation word as a function of the frame stack, nested filter, tag re-use residue, resume stream / bypass / "
+         "critical displacement) over the regenerated statement skeleton of isolate_within_arena and nested_arena_context; access-level life "
+         "cycle of a thread in an arena (slot uniqueness and bound, exact reference accounting, worker bounds under try_join overshoot) with "
+         "whole-runtime access traces validated against it.",
+    note="Trusted: Lean kernel, standard axioms, harness/c16, source extractors checks/c16b.py / c16c.py, E-SHIM, sampled correspondence. "
+         "Per-arena active <= allotted is false at some instants and stated so. Three known findings demonstrated on every run (second "
+         "external thread in a one-thread arena; emptied proxy keeps the arena non-empty; isolation tag re-use lets a task of an earlier "
+         "region run inside a later one).",
     technique="Lean 4 proof (arithmetic + machine invariants + N-thread protocol invariants) + regenerated decision facts + E-SHIM replay/monitors",
     design="§3 C16")
 CLAIMED["C05"] = dict(
